@@ -7,9 +7,11 @@ import (
 	"net"
 	"reflect"
 	"sync"
+	"sync/atomic"
 	"time"
 
 	"github.com/kercylan98/vivid"
+	"github.com/kercylan98/vivid/internal/queues"
 	"github.com/kercylan98/vivid/internal/remoting/serialize"
 	"github.com/kercylan98/vivid/internal/sugar"
 	"github.com/kercylan98/vivid/internal/utils"
@@ -48,6 +50,7 @@ func newMailbox(ctx context.Context, advertiseAddress string, codec vivid.Codec,
 		codec:             codec,
 		eventStream:       eventStream,
 		backoff:           utils.NewExponentialBackoffWithDefault(100*time.Millisecond, 3*time.Second),
+		pending:           queues.New(64),
 	}
 }
 
@@ -64,6 +67,8 @@ type Mailbox struct {
 	codec             vivid.Codec
 	eventStream       vivid.EventStream
 	backoff           *utils.ExponentialBackoff
+	pending           *queues.RingQueue // 待发送的消息，按入列顺序
+	sending           uint32            // 是否已有发送协程在排空 pending
 }
 
 func (m *Mailbox) Pause() {
@@ -78,7 +83,37 @@ func (m *Mailbox) IsPaused() bool {
 	return false
 }
 
+// Enqueue 将消息交给该远程地址的发送队列后立即返回，不在调用方协程上执行建连、重试与退避。
+//
+// Tell 的语义是不阻塞调用方：对端不可达时的重连退避（可达数十秒）若在调用方协程上进行，
+// 发起 Tell 的 Actor 会整个停住，无法处理自己邮箱里的其他消息。消息按入列顺序由唯一的发送协程依次发送，
+// 因此同一发送方到同一远程地址的顺序保持不变；最终发送失败的消息仍经 HandleFailedRemotingEnvelop 进入死信。
 func (m *Mailbox) Enqueue(envelop vivid.Envelop) {
+	m.pending.Push(envelop)
+	if atomic.CompareAndSwapUint32(&m.sending, 0, 1) {
+		go m.drain()
+	}
+}
+
+// drain 排空发送队列；同一时刻至多一个发送协程。
+func (m *Mailbox) drain() {
+	for {
+		for {
+			v, ok := m.pending.Pop()
+			if !ok {
+				break
+			}
+			m.send(v.(vivid.Envelop))
+		}
+		atomic.StoreUint32(&m.sending, 0)
+		// 置空闲后复查：此间入列的消息可能因 CAS 失败而未能启动新的发送协程
+		if m.pending.Empty() || !atomic.CompareAndSwapUint32(&m.sending, 0, 1) {
+			return
+		}
+	}
+}
+
+func (m *Mailbox) send(envelop vivid.Envelop) {
 	m.connectionLock.Lock()
 	defer m.connectionLock.Unlock()
 
